@@ -163,7 +163,7 @@ func GenConfig(r *core.Rng, p *Profile) Config {
 	c.InitCap = []int{0, 0, 1, 3, 16, 1000}[r.Intn(6)]
 	switch r.Intn(8) {
 	case 0:
-		c.ClockOrigin = 1
+		c.ClockOrigin = int64(r.Intn(2))
 	case 1, 2:
 		c.ClockOrigin = 1_000_000_000
 	case 3:
